@@ -282,6 +282,7 @@ type secretPayload struct {
 	User   string `class:"public"`
 	Token  string `class:"secret"`
 	Email  string `class:"sensitive"`
+	Digest string `class:"sensitive,hmac-sha256"` // keyed digest: uses the filter's wrapper, salt and info
 	Detail map[string]interface{}
 }
 
@@ -432,7 +433,7 @@ func RunComposition(name string, seed int64, senders, perSender int, f8 bool) Co
 				gf2.FlushAll(context.Background())
 				b.Reopen(context.Background())
 			case 1:
-				enc.Rotate(encrypt.WithWrapper(encrep.NewWrapper(fmt.Sprintf("c19-%d", i))), encrypt.WithSalt([]byte{byte(i)}))
+				enc.Rotate(encrypt.WithWrapper(encrep.NewWrapper(fmt.Sprintf("c19-%d", i))), encrypt.WithSalt([]byte{byte(i)}), encrypt.WithInfo([]byte{byte(i), 1}))
 			case 2:
 				sig := fmt.Sprintf("sig%d", i)
 				ce.Rotate(func(_ context.Context, b []byte) (string, error) { return sig, nil })
@@ -462,11 +463,11 @@ func RunComposition(name string, seed int64, senders, perSender int, f8 bool) Co
 				case 0:
 					payload = &gated.Payload{ID: fmt.Sprintf("g%d", r.Intn(4)), Flush: r.Intn(3) == 0, Detail: map[string]interface{}{"i": i}}
 				default:
-					payload = &secretPayload{User: "u", Token: fmt.Sprintf("TOKEN-%d-%d", s, i), Email: "e@x", Detail: map[string]interface{}{"k": "v", "n": i}}
+					payload = &secretPayload{User: "u", Token: fmt.Sprintf("TOKEN-%d-%d", s, i), Email: "e@x", Digest: "d@x", Detail: map[string]interface{}{"k": "v", "n": i}}
 				}
 				b.Send(context.Background(), "t", payload)
 				if !f8 {
-					b.Send(context.Background(), "s", &secretPayload{User: "u", Token: fmt.Sprintf("TOKEN-s-%d-%d", s, i), Email: "e@x", Detail: map[string]interface{}{"k": "v"}})
+					b.Send(context.Background(), "s", &secretPayload{User: "u", Token: fmt.Sprintf("TOKEN-s-%d-%d", s, i), Email: "e@x", Digest: "d@x", Detail: map[string]interface{}{"k": "v"}})
 				}
 				atomic.AddInt64(&sends, 1)
 			}
